@@ -234,6 +234,11 @@ def run_c04(r, plan):
     if plan[0] == "seq":
         for i in range(plan[1]):
             sub(200 + 1000 * i, 1100 + 1000 * i, True)
+    elif plan[0] == "seq0":
+        # the first subscription right at the clock's origin (a state measured from the scheduler's zero instead
+        # of from the subscription behaves differently there), the next ones far from it
+        for i in range(plan[1]):
+            sub(1 + 1000 * i, 900 + 1000 * i, True)
     else:
         sub(200, 1400, False)
         sub(200 + plan[1], 1400 + plan[1], False)
